@@ -49,7 +49,7 @@ theorem whole_maildirWrite (env : PEnv) {H : Nat} {w : World} {md : Maildir} {ms
   split
   · exact WholeWritePost.unchanged hL hH (Mid.refl w)
   rename_i fl _
-  refine wp_bind_mono (whole_genname env md (some fl) hsh hps hdd hH 4096 _ (Mid.refl w)) ?_
+  refine wp_bind_mono (whole_genname env md (some fl) hsh hps hdd hH gennameAttempts _ (Mid.refl w)) ?_
   rintro g w2 ⟨hnone, hsome⟩
   cases g with
   | none => exact WholeWritePost.unchanged hL hH (hnone rfl)
